@@ -330,13 +330,19 @@ def selftest():
     return True
 
 
+def h0_is_zero(case):
+    return gq.is_zero(gq.dec(case["H"][gen.key((0,) * case["nparam"])]))
+
+
 def make_cases(rng, count, Ns, max_blocks=3, max_size=3, max_params=2, scales_per_case=2, full_scales=False):
     jobs = []
-    modes = {}
     for k in range(count):
         N = Ns[k % len(Ns)]
-        case = gen.random_case(rng, hermitian=True, N=N, max_blocks=max_blocks, max_size=max_size,
-                               max_params=max_params)
+        while True:
+            case = gen.random_case(rng, hermitian=True, N=N, max_blocks=max_blocks, max_size=max_size,
+                                   max_params=max_params)
+            if not h0_is_zero(case):  # H_0 = 0 is rejected by the library (ValueError), not a C04 input
+                break
         if case["nparam"] == 1:
             ns = 1  # another scale would only rescale x
         else:
@@ -381,7 +387,7 @@ def summarise(jobs, results, rule_extra=""):
 
 def oracle_charpoly(ctx):
     selftest()
-    count = ctx.n(36, 1600)
+    count = ctx.n(36, 1400)
     Ns = [2, 3] if ctx.quick else [2, 3, 3, 4]
     jobs = make_cases(ctx.rng, count, Ns, scales_per_case=2, full_scales=not ctx.quick)
     procs = min(16, os.cpu_count() or 1)
